@@ -25,6 +25,7 @@ func init() {
 		ruleCtorDistance(r, "C01.CTOR", k)
 		ruleDistance(r, "C01.DIST") // "each reported score is the metric distance": distance.go is an anchor of this property
 		ruleLimitAutocut(r, "C01")
+		ruleDocumentFilter(r, "C01.FILTER")
 		r.FloorCheck("C01.ADM", 1)
 		r.FloorCheck("C01.ORD.k", 1)
 		r.FloorCheck("C01.ORD.less", 1)
@@ -61,6 +62,7 @@ func init() {
 		ruleDistance(r, "C02.DIST")
 		ruleAggregations(r, "C02") // multi-query combination rule: aggregation.go is an anchor of this property
 		ruleLimitAutocut(r, "C02")
+		ruleDocumentFilter(r, "C02.FILTER")
 		ruleHNSWResultGate(r, "C02.ADM.hnsw-layer")
 		rulePools(r, "C02.POOL")
 		r.FloorCheck("C02.ADM", 5)
